@@ -60,6 +60,7 @@ def leaf_catalog():
     C["KDTwoRandomCrop"] = (lambda: KDTwoRandomCrop(size=8), "pil")
     C["KDRandomErasing"] = (lambda: T.KDRandomErasing(p=0.9), "tensor")
     C["KDRandomErasing.pixelwise"] = (lambda: T.KDRandomErasing(p=0.9, mode="pixelwise", max_count=2), "tensor")
+    C["KDRandomErasing.channelwise"] = (lambda: T.KDRandomErasing(p=0.9, mode="channelwise", min_count=1, max_count=3), "tensor")
     C["KDColorJitter"] = (lambda: T.KDColorJitter(brightness=0.4, contrast=0.4, saturation=0.2, hue=0.1), "pil")
     C["KDRandomColorJitter"] = (lambda: T.KDRandomColorJitter(p=0.8, brightness=0.4, contrast=0.4, saturation=0.2, hue=0.1), "pil")
     C["KDGaussianBlurPIL"] = (lambda: T.KDGaussianBlurPIL(sigma=(0.1, 2.0)), "pil")
